@@ -78,6 +78,14 @@ def check_assignment(name, cls, vals, basevals=None, dev=()):
     m = bytes(cls.marshall_cdb(dict(vals)))
     if m != b:
         out.append(("encode/%s" % name, "%s.marshall_cdb(%r) = %s, expected %s" % (name, vals, m.hex(), b.hex())))
+    # the same assignment under keys that are equal strings but other objects (parsed from text, JSON, pickles ...)
+    try:
+        m3 = bytes(cls.marshall_cdb({k.encode().decode(): v for k, v in vals.items()}))
+    except Exception as e:   # noqa: BLE001
+        m3 = "raised %s" % type(e).__name__
+    if m3 != b:
+        out.append(("encode_runtime_keys/%s" % name, "%s.marshall_cdb(%r) with keys built at run time = %s, expected %s"
+                    % (name, vals, m3.hex() if isinstance(m3, bytes) else m3, b.hex())))
     m2 = bytes(cls.marshall_cdb(d))
     if m2 != b:
         out.append(("reencode/%s" % name, "%s.marshall_cdb(unmarshall_cdb(%s)) = %s" % (name, b.hex(), m2.hex())))
